@@ -156,15 +156,43 @@ def _t1(ctx: Context, finder: str, handler: str, tables: dict) -> int:
 
 
 # ---------------------------------------------------------------------- profile
+def _wire_vars(ctx: Context, q: str) -> set[str]:
+    """locals holding the manufacturer payload: assigned (or walrus-bound) from <manufacturer data dict>.get(<company id>)"""
+    f = ctx.func(q)
+    out = set()
+    for x in walk_own(f.node):
+        tgt = val = None
+        if isinstance(x, ast.NamedExpr) and isinstance(x.target, ast.Name):
+            tgt, val = x.target.id, x.value
+        elif isinstance(x, ast.Assign) and len(x.targets) == 1 and isinstance(x.targets[0], ast.Name):
+            tgt, val = x.targets[0].id, x.value
+        if tgt and isinstance(val, ast.Call) and isinstance(val.func, ast.Attribute) and val.func.attr == "get" and val.args and isinstance(ctx.const(f, val.args[0], None), int):
+            out.add(tgt)
+        if tgt and isinstance(val, ast.Subscript) and isinstance(ctx.const(f, val.slice, None) if not isinstance(val.slice, ast.Slice) else None, int) and isinstance(val.value, ast.Attribute) and "manufacturer" in val.value.attr:
+            out.add(tgt)
+    return out
+
+
+def _props_vars(ctx: Context, q: str) -> set[str]:
+    """locals holding the TXT record dict: assigned from a dict comprehension over <service>.decoded_properties.items()"""
+    f = ctx.func(q)
+    out = set()
+    for x in walk_own(f.node):
+        if isinstance(x, ast.Assign) and len(x.targets) == 1 and isinstance(x.targets[0], ast.Name) and isinstance(x.value, (ast.DictComp, ast.Call, ast.Dict)):
+            if any(isinstance(y, ast.Attribute) and y.attr in ("decoded_properties", "properties") for y in ast.walk(x.value)):
+                out.add(x.targets[0].id)
+    return out
+
+
 def _profile(ctx: Context) -> PartialProfile:
     roots = [f"{BC}._device_detected", f"{ZC}._async_handle_loaded_service_info"]
     scope = {}
     for q in sync_closure(ctx, roots):
         ops = {"optional_attr": True, "future_set": True}
         if q.startswith(MD) or q == f"{BC}._device_detected":
-            ops["index"] = {"data", "mfr_data"}
+            ops["index"] = _wire_vars(ctx, q)
         if q.endswith("HomeKitService.from_service_info"):
-            ops["dictkey"] = {"props"}
+            ops["dictkey"] = _props_vars(ctx, q)
             ops["int"] = True
         scope[q] = ops
     prof = PartialProfile(
@@ -370,6 +398,12 @@ def _g2(ctx: Context) -> None:
     # the handler around result() catches exactly not-found and continues
     hs = [n for n in acfg.nodes if n.kind == "handler" and "result" in ast.unparse(ast.Module(body=[x for fr in [n.frames] for x in []], type_ignores=[])) + ast.unparse(n.ast)]
     skip = [n for n in acfg.nodes if n.kind == "handler" and n.handler_classes == [NOT_FOUND]]
+    for h in skip:
+        reach = acfg.reachable_from(h.id)
+        raises_in = any(acfg.nodes[x].kind == "raise" and any(fr[0] == "try" and isinstance(fr[2], tuple) and fr[2][1] is h.ast for fr in acfg.nodes[x].frames) for x in reach)
+        back = any(acfg.nodes[x].kind in ("for", "loop_head") for x in reach)
+        ck.check("C19.G2", back and not raises_in, "Controller.async_find: a transport that did not find the device is skipped, the others are still awaited",
+                 f"{ctx.fkey(af)}:not-found-aborts", "Controller.async_find: one transport's AccessoryNotFoundError aborts the search although another transport may still find the device", ctx.loc(af, h))
     ck.check("C19.G2", len(skip) == 1, "Controller.async_find: only AccessoryNotFoundError results are skipped",
              f"{ctx.fkey(af)}:skip-handler", f"Controller.async_find: handlers around result(): {[n.handler_classes for n in acfg.nodes if n.kind == 'handler']}", af.loc())
     # one task per transport
@@ -455,7 +489,7 @@ def _b1(ctx: Context, prof: PartialProfile) -> None:
     nidx = 0
     for q in parsers:
         f = ctx.func(q)
-        sites = [s for s in prof.sites if s[0] == q and s[3] in ("IndexError", "KeyError")]
+        sites = [s for s in prof.sites if s[0] == q and s[3] in ("IndexError", "KeyError", "struct.error")]
         nidx += len(sites)
         for s in sites:
             ck.check(
@@ -508,7 +542,11 @@ def _k1(ctx: Context) -> None:
     rn = rets[0]
     call = rn.exprs[0]
     kw = {k.arg: T.of(cfg, rn, k.value) for k in call.keywords if k.arg}
-    props = T.var_at(cfg, rn, "props")
+    pv = sorted(_props_vars(ctx, q))
+    if len(pv) != 1:
+        ck.unknown("C19.K1", f"from_service_info: TXT record dict variable not identified ({pv})", f.loc())
+        return
+    props = T.var_at(cfg, rn, pv[0])
 
     def is_props_get(t, key, wrap=None, lower=False):
         s = strip_sites(t)
@@ -586,7 +624,11 @@ def _k1(ctx: Context) -> None:
         return
     rn = rets[0]
     kw = {k.arg: strip_sites(T.of(cfg, rn, k.value)) for k in rets[0].exprs[0].keywords if k.arg}
-    data = strip_sites(T.var_at(cfg, rn, "data"))
+    wv = sorted(_wire_vars(ctx, q))
+    if len(wv) != 1:
+        ck.unknown("C19.K1", f"from_manufacturer_data: manufacturer payload variable not identified ({wv})", f.loc())
+        return
+    data = strip_sites(T.var_at(cfg, rn, wv[0]))
 
     def sl(lo, hi):
         return ("sub", data, ("slice", ("const", lo), ("const", hi), None))
@@ -641,3 +683,37 @@ MANIFEST = {
     "level_note": "Trusted: bleak/zeroconf deliver well-typed objects; IntFlag constructors never raise; user listeners do not raise "
     "(isolation is C12); property accessors analysed as calls. Optional-ness is taken from annotations and None assignments.",
 }
+
+TWIN_FILES = [
+    "aiohomekit/zeroconf.py",
+    "aiohomekit/controller/ble/controller.py",
+    "aiohomekit/controller/ble/manufacturer_data.py",
+    "aiohomekit/controller/controller.py",
+    "aiohomekit/controller/ble/pairing.py",
+    "aiohomekit/controller/coap/pairing.py",
+]
+_BC = "aiohomekit/controller/ble/controller.py"
+_Z = "aiohomekit/zeroconf.py"
+_MD = "aiohomekit/controller/ble/manufacturer_data.py"
+VARIANTS = [
+    {"name": "BLE waiter never registered (pinned defect)", "file": _BC, "old": "        self._ble_futures.setdefault(device_id, []).append(future)\n", "new": "", "expect": "C19.T1"},
+    {"name": "BLE waiter registered after the wait", "file": _BC, "old": "        self._ble_futures.setdefault(device_id, []).append(future)\n        try:\n            async with asyncio_timeout(timeout):\n                return await future",
+     "new": "        try:\n            async with asyncio_timeout(timeout):\n                result = await future\n                self._ble_futures.setdefault(device_id, []).append(future)\n                return result", "expect": "C19.T1"},
+    {"name": "mDNS waiter stored in a local list only", "file": _Z, "old": "        waiters = self._waiters.setdefault(device_id, [])", "new": "        waiters = []", "expect": "C19.T1"},
+    {"name": "BLE set_result unguarded (pinned defect)", "file": _BC, "old": "                if not future.done():\n                    future.set_result(discovery)", "new": "                future.set_result(discovery)", "expect": ["C19.G1", "C19.X1"]},
+    {"name": "only the first BLE waiter is woken", "file": _BC, "old": "                if not future.done():\n                    future.set_result(discovery)\n", "new": "                if not future.done():\n                    future.set_result(discovery)\n                    break\n", "expect": "C19.G1"},
+    {"name": "woken BLE waiters stay listed", "file": _BC, "old": "            futures.clear()\n", "new": "", "expect": "C19.G1"},
+    {"name": "mDNS timeout not translated", "file": _Z, "old": "        except asyncio.TimeoutError:\n            raise AccessoryNotFoundError(f\"Accessory with device id {device_id} not found\")\n        finally:\n            cancel_timeout.cancel()", "new": "        finally:\n            cancel_timeout.cancel()", "expect": "C19.G2"},
+    {"name": "mDNS timer left armed", "file": _Z, "old": "        finally:\n            cancel_timeout.cancel()\n", "new": "        finally:\n            pass\n", "expect": "C19.G2"},
+    {"name": "aggregate finder gives up on the first not-found", "file": "aiohomekit/controller/controller.py", "old": "                    except AccessoryNotFoundError:\n                        continue", "new": "                    except AccessoryNotFoundError:\n                        raise", "expect": "C19.G2"},
+    {"name": "cached state dereferenced unguarded (pinned defect)", "file": "aiohomekit/controller/ble/pairing.py", "old": "        if not self._accessories_state:\n            # Nothing cached yet (the accessories have not been fetched)\n            return\n        old_state_num", "new": "        old_state_num", "expect": "C19.X1"},
+    {"name": "CoAP description dereferenced unguarded (pinned defect)", "file": "aiohomekit/controller/coap/pairing.py", "old": "        if not self.description:\n            # A pairing that has been shut down ignores description updates,\n            # so there may be no description to take the address from.\n            return\n", "new": "", "expect": "C19.X1"},
+    {"name": "malformed BLE advertisement no longer ignored", "file": _BC, "old": "        try:\n            data = HomeKitAdvertisement.from_manufacturer_data(device.name, device.address, manufacturer_data)\n        except ValueError:\n            return\n", "new": "        data = HomeKitAdvertisement.from_manufacturer_data(device.name, device.address, manufacturer_data)\n", "expect": ["C19.X1", "C19.B1"]},
+    {"name": "minimum advertisement length lowered", "file": _MD, "old": "        if len(data) < 15:", "new": "        if len(data) < 9:", "expect": "C19.B1"},
+    {"name": "empty manufacturer payload indexed", "file": _MD, "old": "        if not (data := manufacturer_data.get(APPLE_MANUFACTURER_ID)):\n            raise ValueError(\"Not an Apple device\")\n\n        if data[0] != HOMEKIT_ADVERTISEMENT_TYPE:", "new": "        if (data := manufacturer_data.get(APPLE_MANUFACTURER_ID)) is None:\n            raise ValueError(\"Not an Apple device\")\n\n        if data[0] != HOMEKIT_ADVERTISEMENT_TYPE:", "expect": "C19.B1"},
+    {"name": "mDNS id not lower-cased", "file": _Z, "old": "            id=props[\"id\"].lower(),", "new": "            id=props[\"id\"],", "expect": "C19.K1"},
+    {"name": "link-local addresses kept", "file": _Z, "old": "str(ip_addr) for ip_addr in addresses if not ip_addr.is_link_local and not ip_addr.is_unspecified", "new": "str(ip_addr) for ip_addr in addresses if not ip_addr.is_unspecified", "expect": "C19.K1"},
+    {"name": "c# and s# swapped", "file": _Z, "old": "            config_num=int(props.get(\"c#\", 0)),\n            state_num=int(props.get(\"s#\", 0)),", "new": "            config_num=int(props.get(\"s#\", 0)),\n            state_num=int(props.get(\"c#\", 0)),", "expect": "C19.K1"},
+    {"name": "BLE GSN and CN swapped", "file": _MD, "old": "            config_num=cn,\n            state_num=gsn,", "new": "            config_num=gsn,\n            state_num=cn,", "expect": "C19.K1"},
+    {"name": "BLE device id from the wrong bytes", "file": _MD, "old": "        device_id = \":\".join(data[3:9].hex()[0 + i : 2 + i] for i in range(0, 12, 2)).lower()\n        acid", "new": "        device_id = \":\".join(data[2:8].hex()[0 + i : 2 + i] for i in range(0, 12, 2)).lower()\n        acid", "expect": "C19.K1"},
+]
